@@ -17,8 +17,9 @@ fn norm(p: Option<u64>) -> u64 {
     p.unwrap_or(0)
 }
 
-fn promise_case<P: G>(cfg: Cfg, j: usize, tier: Tier, top: bool) -> Box<dyn Case> {
-    case(format!("{}/{}/position={}/value={}", P::NAME, cfg.key(), j, if top { "max" } else { "mid" }), move |_v| {
+fn promise_case<P: G>(cfg: Cfg, j: usize, tier: Tier, variant: &'static str) -> Box<dyn Case> {
+    let top = variant == "max";
+    case(format!("{}/{}/position={}/value={}", P::NAME, cfg.key(), j, variant), move |_v| {
         fg::clear_intern();
         let _ = tier;
         let mut res = CaseResult::new("explored");
@@ -31,6 +32,9 @@ fn promise_case<P: G>(cfg: Cfg, j: usize, tier: Tier, top: bool) -> Box<dyn Case
         if top {
             base.values[j] = max;
         }
+        if variant == "zero" {
+            base.values[j] = 0;
+        }
         let vj = base.values[j];
         let mut created: Vec<Option<u64>> = vec![None, Some(0), Some(1), Some(vj.saturating_sub(1)), Some(vj)];
         created.retain(|p| norm(*p) <= vj);
@@ -40,6 +44,7 @@ fn promise_case<P: G>(cfg: Cfg, j: usize, tier: Tier, top: bool) -> Box<dyn Case
         // verdicts of the promise-free twin batches (layout [triple, companion] and [companion, triple]), computed once
         let mut twin_memo: [Option<bool>; 2] = [None, None];
         let mut promise_free_memo: Option<bool> = None;
+        let mut other_capacity_memo: Option<bool> = None;
         for p in created {
             let mut wit = base.clone();
             wit.promises[j] = p;
@@ -76,6 +81,40 @@ fn promise_case<P: G>(cfg: Cfg, j: usize, tier: Tier, top: bool) -> Box<dyn Case
                         format!("own-statement/p={:?}", p),
                         format!("a proof created under the satisfied promise {:?} (value {}, {} bits) is not accepted under that promise, although the same witness without a promise is proved and accepted", p, vj, cfg.n),
                     );
+                }
+            }
+            // the promise vector is part of the statement, the generator capacity is not: a promise-bearing proof is accepted
+            // under the same promises by a verifier whose parameters have another capacity (differential: its promise-free twin is)
+            if base_ok && pv > 0 {
+                let c2 = if cfg.c * 2 <= 32 { cfg.c * 2 } else { cfg.m };
+                if c2 != cfg.c && c2 >= cfg.m {
+                    let twin_ok = *other_capacity_memo.get_or_insert_with(|| {
+                        let mut w0 = base.clone();
+                        w0.promises[j] = None;
+                        let cfg2 = Cfg::new(cfg.n, cfg.m, c2, cfg.d);
+                        match (build_cached::<P>(&cfg, &w0), build_cached::<P>(&cfg2, &w0)) {
+                            (Ok(b0), Ok(b2)) => match catch(|| lib_prove(&b0, &CTX_A, &mut HRng::chacha(41))) {
+                                Ok(Ok(p0)) => verify_observed_one(&b2.statement, &p0, &CTX_A, VerifyAction::VerifyOnly).is_ok(),
+                                _ => false,
+                            },
+                            _ => false,
+                        }
+                    });
+                    if twin_ok {
+                        let cfg2 = Cfg::new(cfg.n, cfg.m, c2, cfg.d);
+                        if let Ok(b2) = build_cached::<P>(&cfg2, &wit) {
+                            let obs = verify_observed_one(&b2.statement, &proof, &CTX_A, VerifyAction::VerifyOnly);
+                            res.executions += 1;
+                            res.validated += 1;
+                            *res.outcome_counter("other-capacity-verifier") += 1;
+                            if !obs.is_ok() {
+                                res.violate(
+                                    format!("other-capacity/p={:?}", p),
+                                    format!("a proof created under promise {:?} with capacity {} is not accepted under the same promises by a verifier with capacity {} (its promise-free twin is): {}", p, cfg.c, c2, obs.describe()),
+                                );
+                            }
+                        }
+                    }
                 }
             }
             let mut subs: Vec<Option<u64>> = vec![
@@ -307,16 +346,26 @@ fn promise_case<P: G>(cfg: Cfg, j: usize, tier: Tier, top: bool) -> Box<dyn Case
             let mut wit = base.clone();
             wit.promises[j] = Some(p);
             let built = build_cached::<P>(&cfg, &wit).honest();
-            let r = catch(|| lib_prove(&built, &CTX_A, &mut HRng::chacha(42)));
-            res.executions += 1;
-            match r {
-                Err(pn) => res.violate(format!("prove/p={}", p), format!("prover panicked: {}", pn)),
-                Ok(r) => {
-                    *res.outcome_counter(if r.is_ok() { "prover:proof" } else { "prover:refused" }) += 1;
-                    if r.is_ok() != expect_ok {
-                        res.violate(format!("prove/p={}", p), format!("prover with value {} and promise {}: returned proof = {}", vj, p, r.is_ok()));
+            // both entry points (the caller's generator / the operating system's)
+            for entry in ["prove", "prove-os"] {
+                let r = catch(|| {
+                    if entry == "prove" {
+                        lib_prove(&built, &CTX_A, &mut HRng::chacha(42))
+                    } else {
+                        let mut t = CTX_A.transcript();
+                        P::prove_os(&mut t, &built.statement, &built.witness)
                     }
-                },
+                });
+                res.executions += 1;
+                match r {
+                    Err(pn) => res.violate(format!("{}/p={}", entry, p), format!("prover panicked: {}", pn)),
+                    Ok(r) => {
+                        *res.outcome_counter(if r.is_ok() { "prover:proof" } else { "prover:refused" }) += 1;
+                        if r.is_ok() != expect_ok {
+                            res.violate(format!("{}/p={}", entry, p), format!("prover ({}) with value {} and promise {}: returned proof = {}", entry, vj, p, r.is_ok()));
+                        }
+                    },
+                }
             }
         }
         let _ = refbp::ref_nonce;
@@ -328,7 +377,7 @@ fn promise_case<P: G>(cfg: Cfg, j: usize, tier: Tier, top: bool) -> Box<dyn Case
 pub fn run(rep: &mut Report) {
     rep.rule = "configuration lattice x position j x proofs created under promise in {None,0,1,v-1,v} x verification under every single \
                 substitution in {None,0,1,p-1,p+1,v,v+1,2^n-1,2^n,u64::MAX}; oracle: accepted <=> value-wise equal (None = 0), out-of-range \
-                promise => error; prover accepts v==p and refuses v<p; over F the compared element's coefficients equal the reference's \
+                promise => error; prover accepts v==p and refuses v<p through both entry points (values mid-range, top of the range, and 0 at the last position); a promise-bearing proof is accepted under the same promises by a verifier of another capacity whenever its promise-free twin is; over F the compared element's coefficients equal the reference's \
                 (verifier-side half) and the merlin trace carries the promise vector (transcript-side half) -- both recorded as reference-binding \
                 notes (mechanisms of C02 / C04), the verdict is the acceptance matrix; the same triples are also verified inside 2-batches"
         .into();
@@ -336,9 +385,12 @@ pub fn run(rep: &mut Report) {
     let mut cases: Vec<Box<dyn Case>> = Vec::new();
     for cfg in lattice(tier.thorough()) {
         for j in positions(cfg.m, tier.thorough()) {
-            for top in [false, true] {
-                cases.push(promise_case::<F>(cfg, j, tier, top));
-                cases.push(promise_case::<RistrettoPoint>(cfg, j, tier, top));
+            for variant in ["mid", "max", "zero"] {
+                if variant == "zero" && j != cfg.m - 1 {
+                    continue;
+                }
+                cases.push(promise_case::<F>(cfg, j, tier, variant));
+                cases.push(promise_case::<RistrettoPoint>(cfg, j, tier, variant));
             }
         }
     }
